@@ -395,6 +395,102 @@ example :
     validateWarnings 3 conc [some 1, none] outs = [Warn.missing "b", Warn.notConcrete "a"] ∧
     validateWarnings 0 conc [some 1] outs = [] := by decide
 
+/-! ### `validate_types`: the exact list (round 10c — multiplicities and order, not only membership) -/
+
+/-- `validate_types` with the two case distinctions abstracted (`f` = "this input is typed and concrete",
+    `g` = "the not-concrete warning of this output, if any") -/
+def vwGen (f : Option T → Bool) (g : OutState T V → Option Warn) (level : Nat)
+    (inTypes : List (Option T)) (outs : List (OutState T V)) : List Warn :=
+  if level = 0 then [] else
+  let missing := outs.filterMap fun o => if o.type.isNone then some (Warn.missing o.key) else none
+  if level ≤ 1 then missing else
+  if !(inTypes.all f) && level ≤ 2 then missing else
+  missing ++ outs.filterMap g
+
+theorem filterMap_ite_eq_filter_map {α β : Type} (p : α → Bool) (h : α → β) (l : List α) :
+    l.filterMap (fun a => if p a then some (h a) else none) = (l.filter p).map h := by
+  induction l with
+  | nil => rfl
+  | cons a rest ih =>
+    by_cases hp : p a = true
+    · simp [List.filterMap_cons, List.filter_cons, hp, ih]
+    · simp [List.filterMap_cons, List.filter_cons, hp, ih]
+
+/-- **validate_warnings_list.** For any outputs, inputs and level the warnings of `Node.validate_types` are, *as a
+    list*: nothing at level NONE; otherwise one "type is missing" warning per untyped output, in declaration order,
+    followed — iff the level is OUTPUTS or above, or INITIAL with every input typed and concrete — by one "was not
+    concrete" warning per output whose type is not concrete, in declaration order. So each warning occurs exactly as
+    often as there are such outputs (`validate_warnings_count`), and `validate_warnings_exact` is its membership
+    reading. -/
+theorem validate_warnings_list (level : Nat) (concrete : T → Bool) (inTypes : List (Option T))
+    (outs : List (OutState T V)) :
+    validateWarnings level concrete inTypes outs =
+      if level = 0 then [] else
+        (outs.filter fun o => o.type.isNone).map (fun o => Warn.missing o.key) ++
+        if (decide (3 ≤ level) || (decide (level = 2) && inTypes.all fun t => t.any concrete)) = true then
+          (outs.filter fun o => o.type.any fun t => !concrete t).map (fun o => Warn.notConcrete o.key)
+        else [] := by
+  have hgen : validateWarnings level concrete inTypes outs =
+      vwGen (fun t => match t with
+          | some t => concrete t
+          | none => false)
+        (fun o => match o.type with
+          | some t => if concrete t then none else some (Warn.notConcrete o.key)
+          | none => none) level inTypes outs := rfl
+  have hf : (fun (t : Option T) => match t with
+      | some t => concrete t
+      | none => false) = fun t => t.any concrete := by
+    funext t; cases t <;> rfl
+  have hg : (fun (o : OutState T V) => match o.type with
+      | some t => if concrete t then none else some (Warn.notConcrete o.key)
+      | none => none) =
+      fun o => if (o.type.any fun t => !concrete t) then some (Warn.notConcrete o.key) else none := by
+    funext o
+    cases o with
+    | mk k t v =>
+      cases t with
+      | none => rfl
+      | some t => by_cases hc : concrete t = true <;> simp [hc]
+  rw [hgen, hf, hg]
+  unfold vwGen
+  by_cases h0 : level = 0
+  · simp [h0]
+  · rw [if_neg h0, if_neg h0]
+    simp only [filterMap_ite_eq_filter_map]
+    by_cases h1 : level ≤ 1
+    · have h3 : ¬ 3 ≤ level := by omega
+      have h2 : ¬ level = 2 := by omega
+      simp [h1, h3, h2]
+    · rw [if_neg h1]
+      by_cases h2 : level ≤ 2
+      · have h2' : level = 2 := by omega
+        have h3 : ¬ 3 ≤ level := by omega
+        by_cases hA : (inTypes.all fun t => t.any concrete) = true
+        · simp [h2', hA]
+        · have hA' : (inTypes.all fun t => t.any concrete) = false := by simpa using hA
+          simp [h2', hA']
+      · have h3 : 3 ≤ level := by omega
+        simp [h2, h3]
+
+/-- **validate_warnings_count.** Above level NONE the number of warnings is the number of untyped outputs plus —
+    when the not-concrete check applies — the number of outputs with a non-concrete type. -/
+theorem validate_warnings_count (level : Nat) (concrete : T → Bool) (inTypes : List (Option T))
+    (outs : List (OutState T V)) (hl : 0 < level) :
+    (validateWarnings level concrete inTypes outs).length =
+      (outs.filter fun o => o.type.isNone).length +
+      if (decide (3 ≤ level) || (decide (level = 2) && inTypes.all fun t => t.any concrete)) = true then
+        (outs.filter fun o => o.type.any fun t => !concrete t).length
+      else 0 := by
+  rw [validate_warnings_list, if_neg (by omega)]
+  split <;> simp
+
+/-- two untyped outputs with the SAME key-less shape and two symbolic ones: two + two warnings, in order -/
+example :
+    let outs : List (OutState Nat Nat) := [⟨"a", some 7, none⟩, ⟨"b", none, none⟩, ⟨"c", some 9, none⟩, ⟨"d", none, none⟩, ⟨"e", some 1, none⟩]
+    validateWarnings 3 (fun t => t < 5) [none] outs =
+      [Warn.missing "b", Warn.missing "d", Warn.notConcrete "a", Warn.notConcrete "c"] ∧
+    (validateWarnings 2 (fun t => t < 5) [none] outs).length = 2 := by decide
+
 /-- every dropped value is reported, and only those -/
 theorem dropped_iff (check : T → V → Bool) (thook : List (String × T)) (vhook : List (String × V))
     (outs : List (OutState T V)) (w : Warn) :
